@@ -81,6 +81,7 @@ class AppSocket:
         self.accept_mangle = accept_mangle
         self.t0 = None
         self.connected = False
+        self.dialled = False
         self.closed = False
         self.dead = False            # after a reset: writes fail
         self.eof = False
@@ -98,6 +99,7 @@ class AppSocket:
     def establish(self):
         self.t0 = self.s.now
         self.connected = True
+        self.dialled = True
         self.inq = [(self.t0 + dt, it) for dt, it in self.script]
         self.s.emit("dial", self.idx)
 
@@ -225,7 +227,7 @@ class AppSocket:
     def close(self):
         if not self.closed:
             self.closed = True
-            if self.connected:
+            if self.dialled:
                 self.s.emit("sockClosed", self.idx)
 
     def unread_arrived(self):
@@ -266,6 +268,7 @@ class Net:
             def connect(self_, addr):
                 net.attempts.append((net.s.now, oc[0]))
                 if oc[0] == "refused":
+                    self_.dialled = True
                     net.s.emit("dial", self_.idx)
                     net.s.emit("dialFailed", self_.idx)
                     raise ConnectionRefusedError(errno.ECONNREFUSED, "Connection refused")
